@@ -3,6 +3,7 @@ from __future__ import annotations
 
 import json
 import os
+import warnings
 from typing import List, Tuple
 
 from .. import valuecheck
@@ -71,12 +72,16 @@ def body(sub, root: tuple, tv: TV, extra=None) -> List[Tuple[str, str, str, str]
     T = sub.root_type(root)
     rname = valuecheck.root_name(root)
     try:
-        obj = sub.conv.structure(j, T)
+        with warnings.catch_warnings():   # also in a process run with warnings as errors
+            warnings.simplefilter("error")
+            obj = sub.conv.structure(j, T)
     except Exception as e:  # any exception on a valid value is a violation
         fr = exc_frame(e)
         return [(f"raises:{exc_sig(e)}", fr if fr != "?" else f"root:{rname}", "structure", f"root {rname}: {exc_detail(e)}")]
     try:
-        o = json.loads(json.dumps(sub.conv.unstructure(obj, T)))
+        with warnings.catch_warnings():
+            warnings.simplefilter("error")
+            o = json.loads(json.dumps(sub.conv.unstructure(obj, T)))
     except Exception as e:
         fr = exc_frame(e)
         return [(f"raises:{exc_sig(e)}", fr if fr != "?" else f"root:{rname}", "unstructure", f"root {rname}: {exc_detail(e)}")]
